@@ -173,6 +173,7 @@ func buildTree(par []int, aliasMask, optMask, clash int, sameName bool, exec boo
 		add("-" + flagLetter[i])
 	}
 	add("--flag" + string(letters[n-1]))
+	add("--pflag") // the parser's flag by its long name: in scope everywhere, also where its letter is taken by a command's flag
 	add("zzz")
 	if variant == 2 {
 		add("-o", cmds[0].Name)
